@@ -61,6 +61,8 @@ class Cx:
     def analyse(self, path_or_fn, subst=None, arg_names=None, arg_values=None, key=None, facts=None):
         facts = facts or self.facts
         f = facts.fn(path_or_fn) if isinstance(path_or_fn, str) else path_or_fn
+        if subst is None and isinstance(f, dict) and f.get('_subst'):
+            subst = f['_subst']
         ck = None
         if arg_values is None:
             ck = (id(facts), f['path'], tuple(sorted((k, ty_str(v)) for k, v in (subst or {}).items())),
@@ -155,7 +157,19 @@ def impl_method(facts, trait, self_ty, method, trait_args=None):
     hit = facts.find_impl_method(trait, trait_args, self_ty, method)
     if hit is None:
         return None
-    return hit[2]
+    f, b = hit[2], hit[1]
+    conc = {k: v for k, v in (b or {}).items() if isinstance(v, dict) and v.get('k') != 'param'}
+    if conc:
+        # a blanket impl (`impl<P> HasIntegral for Log<P> where …`) looked up for one concrete type: the body is analysed
+        # under that instantiation, and named after it
+        f = dict(f)
+        f['_subst'] = conc
+        f['path_inst'] = '%s[%s]' % (f['path'], ', '.join('%s = %s' % (k, ty_str(v)) for k, v in sorted(conc.items())))
+    return f
+
+
+def inst_of(f):
+    return f.get('path_inst', f['path'])
 
 
 # ---------------------------------------------------------------- helpers found by role, not by name
